@@ -543,3 +543,32 @@ mod tests {
         assert_eq!(snapshot.event_count, 2);
     }
 }
+
+#[cfg(swimos_verif)]
+impl Links {
+    /// Canonical (iteration order independent) rendering of the complete state, for use as a
+    /// state key by the model checking harness.
+    pub fn verif_key(&self) -> String {
+        let mut fwd = self
+            .forward
+            .iter()
+            .map(|(id, links)| {
+                let mut remotes = links.remotes.iter().copied().collect::<Vec<_>>();
+                remotes.sort_unstable();
+                (*id, remotes, links.reporter.is_some())
+            })
+            .collect::<Vec<_>>();
+        fwd.sort();
+        let mut back = self
+            .backwards
+            .iter()
+            .map(|(id, lanes)| {
+                let mut lanes = lanes.iter().copied().collect::<Vec<_>>();
+                lanes.sort_unstable();
+                (*id, lanes)
+            })
+            .collect::<Vec<_>>();
+        back.sort();
+        format!("f={:?};b={:?};t={}", fwd, back, self.total_count)
+    }
+}
